@@ -51,6 +51,16 @@ macro_rules! cut {
 // the ε-copy path may panic on truncated input (documented): slice bounds checks only
 // @h cut_opt_u32 props=C11 tier=quick kind=complete vars="v:Option<u32>, every cut k<len" allow="core::slice::index::slice_index_fail|index out of bounds|called `Result::unwrap\(\)` on an `Err` value" fns="impls/prim.rs:Option,deser/slice_with_pos.rs"
 cut!(cut_opt_u32, Option<u32>, 0, 32, 9);
+// @h cut_range_incl props=C11 tier=quick kind=complete vars="v:RangeInclusive<u16> (not exhausted), every cut k<len" allow="core::slice::index::slice_index_fail|index out of bounds|called `Result::unwrap\(\)` on an `Err` value" fns="impls/stdlib.rs:RangeInclusive"
+cut!(cut_range_incl, core::ops::RangeInclusive<u16>, 0, 32, 9);
+// @h cut_range_u32 props=C11 tier=quick kind=complete vars="v:Range<u32>, every cut k<len" allow="core::slice::index::slice_index_fail|index out of bounds|called `Result::unwrap\(\)` on an `Err` value" fns="impls/stdlib.rs:Range"
+cut!(cut_range_u32, core::ops::Range<u32>, 0, 32, 9);
+// @h cut_bound_u16 props=C11 tier=quick kind=complete vars="v:Bound<u16>, every cut k<len" allow="core::slice::index::slice_index_fail|index out of bounds|called `Result::unwrap\(\)` on an `Err` value" fns="impls/stdlib.rs:Bound"
+cut!(cut_bound_u16, Bound<u16>, 0, 32, 9);
+// @h cut_cf props=C11 tier=quick kind=complete vars="v:ControlFlow<u8,u16>, every cut k<len" allow="core::slice::index::slice_index_fail|index out of bounds|called `Result::unwrap\(\)` on an `Err` value" fns="impls/stdlib.rs:ControlFlow"
+cut!(cut_cf, ControlFlow<u8, u16>, 0, 32, 9);
+// @h cut_opt_range_incl props=C11 tier=quick kind=complete vars="v:Option<RangeInclusive<u8>>, every cut k<len" allow="core::slice::index::slice_index_fail|index out of bounds|called `Result::unwrap\(\)` on an `Err` value" fns="impls/stdlib.rs:RangeInclusive,impls/prim.rs:Option"
+cut!(cut_opt_range_incl, Option<core::ops::RangeInclusive<u8>>, 0, 32, 9);
 // @h cut_e1 props=C11,C05 tier=quick kind=complete vars="v:E1, every cut k<len" allow="core::slice::index::slice_index_fail|index out of bounds|called `Result::unwrap\(\)` on an `Err` value" fns="derive:E1"
 cut!(cut_e1, E1, 0, 32, 17);
 // @h cut_vec_u16 props=C11 tier=quick kind=bounded bound="len<=2" vars="v:Vec<u16>, every cut k<len" allow="core::slice::index::slice_index_fail|index out of bounds|called `Result::unwrap\(\)` on an `Err` value" fns="deser/helpers.rs:deserialize_eps_slice_zero,deser/helpers.rs:deserialize_full_vec_zero"
